@@ -26,7 +26,10 @@ def cell_str(c):
         return str(c)
     if c == T:
         return '?'
-    return '%s%s.%d' % ('~' if c[0] == 'n' else '', c[1] if isinstance(c[1], str) else '/'.join(map(str, c[1])), c[2])
+    if c[0] == 'x':
+        return '(%s%s)' % ('1^' if c[2] else '', '^'.join(sorted(cell_str(a) for a in c[1]))[:120])
+    nm = c[1] if isinstance(c[1], str) else ('/'.join(map(str, c[1])) if c[1] and c[1][0] == 'mem' else '%s(...)' % (c[1][0],))
+    return '%s%s.%d' % ('~' if c[0] == 'n' else '', nm, c[2])
 
 
 def const_bv(v, w, signed=False):
@@ -42,6 +45,32 @@ def top_bv(w, signed=False):
     return BV(w, [T] * w, signed)
 
 
+def _to_xs(c):
+    """(set of positive atoms, constant) of a cell that is an XOR of input bits, else None"""
+    if c == 0:
+        return frozenset(), 0
+    if c == 1:
+        return frozenset(), 1
+    if c == T:
+        return None
+    if c[0] == 'i':
+        return frozenset([c]), 0
+    if c[0] == 'n':
+        return frozenset([('i', c[1], c[2])]), 1
+    if c[0] == 'x':
+        return c[1], c[2]
+    return None
+
+
+def _from_xs(S, inv):
+    if not S:
+        return inv
+    if len(S) == 1:
+        a = next(iter(S))
+        return a if inv == 0 else ('n', a[1], a[2])
+    return ('x', S, inv)
+
+
 def c_not(a):
     if a == 0:
         return 1
@@ -49,6 +78,8 @@ def c_not(a):
         return 0
     if a == T:
         return T
+    if a[0] == 'x':
+        return ('x', a[1], 1 - a[2])
     return ('n' if a[0] == 'i' else 'i', a[1], a[2])
 
 
@@ -99,7 +130,24 @@ def c_xor(a, b):
         return 0
     if a == c_not(b):
         return 1
-    return T
+    # GF(2)-affine combination of input bits: kept exactly (CRCs, checksums, Gray codes ...)
+    xa, xb = _to_xs(a), _to_xs(b)
+    if xa is None or xb is None:
+        return T
+    return _from_xs(xa[0] ^ xb[0], xa[1] ^ xb[1])
+
+
+def u_op(name, a, b, w, commutative=True):
+    """result bits of an operation the lattice does not interpret (multiplication, addition of two
+    non-constants, a table lookup at a non-constant index): fresh input bits keyed by the operand
+    cells, so two computations agree iff they apply the same operation to the same operands"""
+    ka, kb = tuple(a), tuple(b)
+    if T in ka or T in kb:
+        return [T] * w
+    if commutative and repr(kb) < repr(ka):
+        ka, kb = kb, ka
+    key = (name, ka, kb)
+    return [('i', key, i) for i in range(w)]
 
 
 def subst(cell, x, val):
@@ -110,6 +158,11 @@ def subst(cell, x, val):
         return val
     if cell == c_not(x):
         return 1 - val
+    if cell[0] == 'x':
+        px = x if x[0] == 'i' else ('i', x[1], x[2]) if x[0] == 'n' else None
+        if px is not None and px in cell[1]:
+            v = val if x[0] == 'i' else 1 - val
+            return _from_xs(cell[1] - {px}, cell[2] ^ v)
     return cell
 
 
@@ -134,6 +187,8 @@ def c_ite(x, t, e):
 
 def bv_const(v):
     """integer value of a fully constant BV (two's complement if signed), else None"""
+    if not isinstance(v, BV):
+        return None
     if any(c not in (0, 1) for c in v.b):
         return None
     x = sum(c << i for i, c in enumerate(v.b))
@@ -578,6 +633,14 @@ class BVExec(Interp):
                 ib, kk = split_const(txt)
                 return Ptr(pa.base, ib, pa.k + kk)
             return None
+        if k == 'UnaryOperator' and n.get('opcode') in ('++', '--') and '*' in (qtype(n) or ''):
+            rd = ref_decl(kids(n)[0])
+            cur = env.get((rd or {}).get('id'))
+            if isinstance(cur, Ptr):
+                new_ = Ptr(cur.base, cur.idx, cur.k + (1 if n['opcode'] == '++' else -1))
+                env[rd['id']] = new_
+                return cur if n.get('isPostfix') else new_
+            return None
         if k == 'UnaryOperator' and n.get('opcode') == '&':
             s0 = strip(kids(n)[0])
             if s0.get('kind') == 'ArraySubscriptExpr':
@@ -620,6 +683,41 @@ class BVExec(Interp):
             info = width_of_type(dtype(n0)) or (8, False)
             if pa is not None and c is not None:
                 return self.mem(Ptr(pa.base, pa.idx, pa.k + c), info[0], info[1])
+        if k == 'ArraySubscriptExpr':
+            pa = self.ptr_of(n0['inner'][0], env, depth)
+            if pa is not None:
+                iv_ = self.eval(n0['inner'][1], env, depth)
+                info = width_of_type(dtype(n0)) or (8, False)
+                if T not in iv_.b:
+                    # non-constant index: the element is a function of the index bits
+                    idx = tuple(iv_.b[:max(1, max((i + 1 for i, c_ in enumerate(iv_.b) if c_ != 0), default=1))])
+                    return BV(info[0], [('i', ('tab', pa.base, pa.k, idx), i) for i in range(info[0])], info[1])
+        if k == 'BinaryOperator' and n0.get('opcode') in ('==', '!=', '<', '>', '<=', '>=') and '*' in (qtype(strip(n0['inner'][0], casts=False)) or '') + (qtype(strip(n0['inner'][1], casts=False)) or ''):
+            pa, pb = self.ptr_of(n0['inner'][0], env, depth), self.ptr_of(n0['inner'][1], env, depth)
+            if pa is not None and pb is not None and pa.base == pb.base and pa.idx == pb.idx:
+                r_ = {'==': pa.k == pb.k, '!=': pa.k != pb.k, '<': pa.k < pb.k, '>': pa.k > pb.k, '<=': pa.k <= pb.k, '>=': pa.k >= pb.k}[n0['opcode']]
+                return BV(1, [1 if r_ else 0])
+            return BV(1, [T])
+        if k == 'BinaryOperator' and n0.get('opcode') == '-' and '*' in (qtype(strip(n0['inner'][0], casts=False)) or '') and '*' in (qtype(strip(n0['inner'][1], casts=False)) or ''):
+            pa, pb = self.ptr_of(n0['inner'][0], env, depth), self.ptr_of(n0['inner'][1], env, depth)
+            if pa is not None and pb is not None and pa.base == pb.base and pa.idx == pb.idx:
+                return const_bv((pa.k - pb.k) & ((1 << 64) - 1), 64, True)
+        if k == 'BinaryOperator' and n0.get('opcode') in ('*', '+', '-') and width_of_type(dtype(n0)):
+            a = self.eval(n0['inner'][0], env, depth)
+            b = self.eval(n0['inner'][1], env, depth)
+            if bv_const(a) is None or bv_const(b) is None:
+                info = width_of_type(dtype(n0))
+                a2, b2 = self.cast(a, dtype(n0)), self.cast(b, dtype(n0))
+                op = n0['opcode']
+                if op == '+' and bv_const(b2) == 0:
+                    return a2
+                if op == '+' and bv_const(a2) == 0:
+                    return b2
+                if op == '*' and (bv_const(b2) == 1):
+                    return a2
+                if op == '*' and (bv_const(a2) == 1):
+                    return b2
+                return BV(info[0], u_op({'*': 'mul', '+': 'add', '-': 'sub'}[op], a2.b, b2.b, info[0], commutative=op != '-'), info[1])
         if k == 'UnaryOperator' and n0.get('opcode') == '*':
             pa = self.ptr_of(n0['inner'][0], env, depth)
             info = width_of_type(dtype(n0)) or (8, False)
